@@ -237,16 +237,6 @@ Proof. exact handle_loop_total. Qed.
 Print Assumptions C11_bad_directive_fails_that_task_only.
 
 (* ---- non-vacuity: a bulk of two tasks through all four stagers ---- *)
-Definition ex_sb (uid : string) : sandboxes :=
-  {| sb_client := "/R/client"; sb_task := "file://localhost/R/rsb/s1/p0/" +++ uid +++ "/";
-     sb_pilot := "file://localhost/R/rsb/s1/p0/"; sb_session := "file://localhost/R/rsb/s1";
-     sb_resource := "file://localhost/R/rsb"; sb_endpoint := "file://localhost/" |}.
-
-Definition ex_fs : fsys :=
-  [ (["R"], D); (["R"; "client"], D); (["R"; "client"; "a.dat"], F (Plain 1)); (["R"; "client"; "b.dat"], F (Plain 2));
-    (["R"; "rsb"], D); (["R"; "rsb"; "s1"], D); (["R"; "rsb"; "s1"; "p0"], D);
-    (["R"; "rsb"; "s1"; "p0"; "sh.dat"], F (Plain 3)) ].
-
 Definition ex_case : list task_in :=
   [ {| ti_uid := "t0"; ti_sb := ex_sb "t0";
        ti_in := [ SStr "a.dat > in/a.dat";
@@ -272,3 +262,33 @@ Example C11_nonvacuous :
   = ( Some (Plain 1), Some (Plain 3), Some (Plain 2), Some (Plain 7), Some (Plain 7), None,
       [ ("t1", FAILED); ("t2", FAILED); ("t0", DONE) ] ).
 Proof. vm_compute. reflexivity. Qed.
+
+(* ---- recorded finding: a TARBALL directive with an explicitly empty target.
+   Every other action stages an empty target as <task sandbox>/<basename>; the
+   tarball path packs the file under the sandbox directory's own name and the
+   task fails in the agent although its source exists. *)
+Definition ex_tar_empty : list task_in :=
+  [ {| ti_uid := "t0"; ti_sb := ex_sb "t0";
+       ti_in := [ SDict (Some "a.dat") (Some "") (Some Tarball) false ];
+       ti_out := []; ti_soe := false; ti_outcome := DONE; ti_exec := [] |} ].
+
+Theorem C11_tarball_empty_target_refuted :
+  exists tis fs0, file_at ["R"; "client"; "a.dat"] fs0 = Some (Plain 1) /\
+    let '(_, fs', fin) := run_case tis fs0 in
+    map (fun t => last (t_pub t) DONE) fin = [FAILED] /\
+    file_at ["R"; "rsb"; "s1"; "p0"; "t0"; "a.dat"] fs' = None.
+Proof. exists ex_tar_empty, ex_fs. vm_compute. repeat split; reflexivity. Qed.
+Print Assumptions C11_tarball_empty_target_refuted.
+
+(* the same directive with any other action is staged *)
+Theorem C11_empty_target_staged_partial :
+  forall a, In a [Transfer; Copy; Link; Move] ->
+    let '(_, fs', fin) := run_case
+      [ {| ti_uid := "t0"; ti_sb := ex_sb "t0";
+           ti_in := [ SDict (Some (if client_side_b a then "a.dat" else "pilot:///sh.dat")) (Some "") (Some a) false ];
+           ti_out := []; ti_soe := false; ti_outcome := DONE; ti_exec := [] |} ] ex_fs in
+    map (fun t => last (t_pub t) DONE) fin = [DONE] /\
+    file_at (["R"; "rsb"; "s1"; "p0"; "t0"] ++ [if client_side_b a then "a.dat" else "sh.dat"]) fs'
+      = Some (Plain (if client_side_b a then 1 else 3)).
+Proof. exact empty_target_staged. Qed.
+Print Assumptions C11_empty_target_staged_partial.
